@@ -1,26 +1,265 @@
 // E1 harness for C09 (latch / event / call_once part): the real pika::latch,
-// pika::experimental::event and pika::call_once under the baton, callers on OS threads.
+// pika::experimental::event and pika::call_once under the baton, callers on OS threads
+// (default, agent=os) or on pika tasks of a live runtime (agent=task, follow-up C09p).
 //
-// case header: kind=latch init=<count> | kind=event | kind=once ; seed= strat=
+// case header: kind=latch init=<count> | kind=event | kind=once ; seed= strat= [agent=os|task]
 // thread ops:  latch: wait ; try ; cd <n> ; aw <n>
 //              event: ewait ; eset ; ereset ; eocc
 //              once : call <throws 0|1>
+#define VERIF_WITH_PIKA_TASKS
 #include "../baton.hpp"
 #include "../e1_main.hpp"
 
+#include <pika/modules/thread_manager.hpp>
+#include <pika/runtime/runtime.hpp>
 #include <pika/synchronization/event.hpp>
 #include <pika/synchronization/latch.hpp>
 #include <pika/synchronization/once.hpp>
 
+#include <pika/threading_base/thread_data.hpp>
+
+#include <chrono>
+#include <csignal>
 #include <memory>
 #include <stdexcept>
+#include <thread>
 
 using namespace verif;
+
+// ---- agent=task: every model thread is a pika task whose blocking goes through pika's own task
+// agent -------------------------------------------------------------------------------------------
+// The task installs a `task_agent` (derived from the baton's verif_agent) on top of its own
+// pika execution_agent.  yield / yield_k / spin_k stay baton preemption points (a spinning task
+// keeps its worker, as it does in pika below k = 16).  suspend() does the controller's book-keeping
+// (same log lines `ag.suspend` / `ag.woke` as the OS-thread agent), hands the baton on WITHOUT
+// blocking the worker and then really suspends the pika task (execution_agent::suspend: state
+// `suspended`, context switch back into the scheduling loop of the worker).  resume() does the
+// book-keeping (`ag.resume`, wake-up token) and then really resumes the target
+// (execution_agent::resume -> set_thread_state(pending); if the target is still `active` - it has
+// been popped from the condition variable before it got as far as its suspension - pika's
+// set_active_state helper task carries the wake-up).  A resumed task continues on whichever worker
+// picks it up and then waits for the baton.  With n tasks and n + 1 workers there is always a free
+// worker (a suspended task holds none), so helper tasks and resumed tasks are always picked up.
+//
+// The log depends on the controller's choices only (thread states change inside controller calls,
+// not when the real wake-up lands), so a case replays exactly; only the trailing `tk.stat` line
+// (number of real suspensions, number of resumes that hit a still-active task) depends on timing.
+//
+// Hooks that fire inside the real suspend / resume calls (scheduler, state word, queues) and in the
+// scheduling loops of the workers are not part of this model: `my_tid` is -1 there and the sink
+// drops them.
+//
+// Lost real wake-up: declared from runtime state, never from elapsed time (see `watchdog`).
+namespace {
+    struct task_shared    // guarded by controller::m
+    {
+        explicit task_shared(int n)
+          : in_susp(n, 0)
+          , res_started(n, 0)
+          , res_done(n, 0)
+          , ids(n)
+        {
+        }
+        std::vector<int> in_susp;    // 1 from the hand-over of the baton until the real suspend returned
+        std::vector<long> res_started, res_done;    // real resume calls aimed at the task
+        std::vector<pika::threads::detail::thread_id_type> ids;
+        std::vector<int> spurious;    // tasks whose real suspension ended without a resume
+        long real_suspends = 0, resumes_on_active = 0;
+        bool drop_real_resume = false;    // self-test of the watchdog (VERIF_C09P_DROP_RESUME=1)
+    };
+
+    pika::threads::detail::thread_schedule_state real_state(pika::threads::detail::thread_id_type const& id)
+    {
+        return pika::threads::detail::get_thread_id_data(id)->get_state().state();
+    }
+
+    // Make `a` the current agent of the calling OS thread and leave it there (no restore: pika's
+    // own reset_agent in thread_data::call restores the worker's default agent whenever the task
+    // switches out, and installs the task's execution_agent again whenever a worker - possibly another
+    // one - switches the task in; a scoped reset_agent across a suspension would restore into the
+    // thread-local slot of the wrong OS thread).
+    void install_agent(pika::execution::detail::agent_base& a)
+    {
+        using ra = pika::execution::this_thread::detail::reset_agent;
+        alignas(ra) unsigned char buf[sizeof(ra)];
+        new (buf) ra(a);    // constructor swaps the slot; the destructor is deliberately never run
+    }
+
+    struct task_agent : verif_agent
+    {
+        pika::execution::detail::agent_base& real;
+        task_shared& sh;
+        task_agent(int t, controller* cc, pika::execution::detail::agent_base& r, task_shared& s)
+          : verif_agent(t, cc)
+          , real(r)
+          , sh(s)
+        {
+        }
+        std::string description() const override { return "verif task_agent"; }
+        void suspend(char const* desc) override
+        {
+            {
+                std::unique_lock<std::mutex> l(c->m);
+                auto& me = c->th[tid];
+                c->logf(tid, "ag.suspend", 0, me.tokens, 0);
+                me.st = me.tokens > 0 ? tstate::runnable : tstate::parked;
+                sh.in_susp[tid] = 1;
+                ++sh.real_suspends;
+                c->switch_from(-1, l);    // pick the next thread, do not wait for the baton here
+            }
+            my_tid = -1;
+            real.suspend(desc);    // the pika task gives up its worker until somebody resumes it
+            install_agent(*this);  // (possibly on another worker)
+            my_tid = tid;
+            {
+                std::unique_lock<std::mutex> l(c->m);
+                auto& me = c->th[tid];
+                sh.in_susp[tid] = 0;
+                if (me.tokens <= 0) sh.spurious.push_back(tid);
+                me.cv.wait(l, [&] { return c->current == tid; });
+                me.st = tstate::runnable;
+                me.tokens--;
+                c->logf(tid, "ag.woke", 0, me.tokens, me.aborted ? 1 : 0);
+            }
+        }
+        void resume(char const* desc) override
+        {
+            c->agent_resume(tid, false);    // book-keeping + `ag.resume` line (tid = target)
+            int const caller = my_tid;
+            {
+                std::unique_lock<std::mutex> l(c->m);
+                ++sh.res_started[tid];
+                if (real_state(sh.ids[tid]) == pika::threads::detail::thread_schedule_state::active)
+                    ++sh.resumes_on_active;
+            }
+            my_tid = -1;
+            if (!sh.drop_real_resume) real.resume(desc);
+            my_tid = caller;
+            {
+                std::unique_lock<std::mutex> l(c->m);
+                ++sh.res_done[tid];
+            }
+        }
+    };
+
+    // A lost wake-up of pika's task agent is declared from state only: the baton has been granted to
+    // task T (so no model thread runs or can run), every real resume call aimed at T has returned,
+    // T's pika state is `suspended`, and the runtime holds nothing that could still wake it: no
+    // pending and no staged task, and the active / suspended tasks are exactly the model threads that
+    // wait for the baton / are suspended (no set_active_state helper alive).  The condition is
+    // stable once true; it is required on 10 consecutive probes only because the four counters are
+    // not read atomically.
+    [[noreturn]] void watchdog(controller& c, task_shared& sh)
+    {
+        using st = pika::threads::detail::thread_schedule_state;
+        auto& tm = pika::detail::get_runtime().get_thread_manager();
+        int quiet = 0;
+        for (;;)
+        {
+            std::this_thread::sleep_for(std::chrono::milliseconds(quiet > 0 ? 1 : 5));
+            std::unique_lock<std::mutex> l(c.m);
+            int const t = c.current;
+            bool cand = t >= 0 && t < c.n && sh.in_susp[t] == 1 && sh.res_started[t] == sh.res_done[t] &&
+                c.th[t].st != tstate::done && real_state(sh.ids[t]) == st::suspended;
+            if (cand)
+            {
+                long exp_active = 0, exp_susp = 0;
+                for (int i = 0; i < c.n; ++i)
+                {
+                    if (sh.in_susp[i] == 1) ++exp_susp;
+                    else if (c.th[i].st != tstate::done) ++exp_active;
+                }
+                cand = tm.get_thread_count(st::pending) == 0 && tm.get_thread_count(st::staged) == 0 &&
+                    tm.get_thread_count(st::active) == exp_active &&
+                    tm.get_thread_count(st::suspended) == exp_susp;
+            }
+            quiet = cand ? quiet + 1 : 0;
+            if (quiet >= 10)
+            {
+                c.logf(t, "tk.lost", 0, sh.res_done[t], 0);
+                c.status = "hang";
+                c.finish(l);
+            }
+        }
+    }
+
+    [[noreturn]] void run_task_agents(controller& c, std::vector<std::function<void()>> bodies)
+    {
+        g_ctl = &c;
+        auto* sh = new task_shared(c.n);
+        sh->drop_real_resume = std::getenv("VERIF_C09P_DROP_RESUME") != nullptr;
+        c.on_finish = [&c, sh] {
+            for (int t : sh->spurious) c.logf(t, "tk.spurious", 0, 0, 0);
+            c.logf(0, "tk.stat", 0, sh->real_suspends, sh->resumes_on_active);
+        };
+        std::string threads = "--pika:threads=" + std::to_string(c.n + 1);
+        char const* argv[] = {"e1", threads.c_str(), "--pika:bind=none", nullptr};
+        pika::start(nullptr, 3, argv);
+#if defined(PIKA_VERIF_HOOKS)
+        pika::verif::sink.store(&e1_sink);
+#endif
+        namespace ex = pika::execution::experimental;
+        for (int i = 0; i < c.n; ++i)
+        {
+            ex::start_detached(ex::schedule(ex::thread_pool_scheduler{}) | ex::then([&c, sh, i, &bodies] {
+                auto real = pika::execution::this_thread::detail::agent();
+                task_agent ag(i, &c, real.ref(), *sh);
+                {
+                    std::unique_lock<std::mutex> l(c.m);
+                    sh->ids[i] = pika::threads::detail::get_self_id();
+                }
+                install_agent(ag);
+                c.thread_begin(i);
+                bodies[i]();
+                c.thread_end(i);
+                install_agent(real.ref());
+                // the task ends here and gives its worker back
+            }));
+        }
+        c.start_all();
+        watchdog(c, *sh);
+    }
+}    // namespace
 
 static void run_one(case_t const& c)
 {
     int k = int(c.threads.size());
+    bool task_mode = c.gets("agent", "os") == "task";
+    bool fell_back = false;
+    if (task_mode)
+    {
+        // The live runtime runs in a child of its own.  The only wall-clock limit is a safety net
+        // against an unbounded run on an overloaded machine: if it fires (and the state-based
+        // watchdog has declared nothing) the task-mode run is inconclusive - it gives NO verdict -
+        // and the same case is run with the OS-thread agent instead; the log then starts with a
+        // `tk.fallback` line, which the check counts.
+        alarm(0);
+        std::fflush(stdout);
+        pid_t pid = fork();
+        if (pid != 0)
+        {
+            int st = 0;
+            waitpid(pid, &st, 0);
+            if (WIFSIGNALED(st) && WTERMSIG(st) == SIGALRM)
+            {
+                std::fprintf(stderr, "case %s: task-mode run inconclusive (wall-clock safety net), "
+                                     "falling back to the OS-thread agent\n", c.id.c_str());
+                task_mode = false;
+                fell_back = true;
+                alarm(120);
+            }
+            else if (WIFSIGNALED(st))
+            {
+                std::printf("end crash signal=%d\n", WTERMSIG(st));
+                std::fflush(stdout);
+                _exit(0);
+            }
+            else { _exit(WIFEXITED(st) ? WEXITSTATUS(st) : 0); }
+        }
+        else { alarm(unsigned(c.geti("wall", 240))); }
+    }
     auto* ctl = new controller(k, std::uint64_t(c.geti("seed", 1)), int(c.geti("strat", 0)));
+    if (fell_back) ctl->logf(0, "tk.fallback", 0, 0, 0);
     ctl->max_steps = std::size_t(c.geti("maxsteps", 20000));
     std::string kind = c.gets("kind", "latch");
     auto* lt = new pika::latch(c.geti("init", 0));
@@ -120,6 +359,7 @@ static void run_one(case_t const& c)
             }
         });
     }
+    if (task_mode) run_task_agents(*ctl, bodies);
     run_os_threads(*ctl, bodies);
 }
 
